@@ -5,6 +5,7 @@
    certified per run on exact rationals. *)
 From Coq Require Import List ZArith Reals Lra.
 From ML Require Import Ops Vec VecR MatR LinAlg PSDConv Mahalanobis MahalanobisR C20Proof CovProof.
+From ML Require Import PinsC20.
 Import ListNotations.
 Open Scope R_scope.
 
@@ -66,3 +67,7 @@ Proof.
     + exists (-1/4). split; [cbn; auto|]. rewrite Rabs_left; lra.
   - apply (proj1 (proj2 (sdp_check_spec [1; -1] (1/2)))); [lra|]. exists (-1). split; [cbn; auto | lra].
 Qed.
+
+(* text-level tie: the functions this property's hand-written model and harness were written from are unchanged
+   (digests regenerated from /repo on every run; Proofs/PinsC20.v) *)
+Definition C20_source_pins := pins_C20_ok.
